@@ -43,8 +43,8 @@ Class(k) == {t \in Tuples : Canon4(t) = k}
 Mult(k)  == Cardinality(Class(k))
 
 \* the code's bit-shift formula: 1 << (I#J) << (i.i#i.j) << (j.i#j.j)
-B(x) == IF x THEN 2 ELSE 1
-MultFormula(k) == B(k[1] # k[2]) * B(V2S[k[1]][1] # V2S[k[1]][2]) * B(V2S[k[2]][1] # V2S[k[2]][2])
+Two(x) == IF x THEN 2 ELSE 1
+MultFormula(k) == Two(k[1] # k[2]) * Two(V2S[k[1]][1] # V2S[k[1]][2]) * Two(V2S[k[2]][1] # V2S[k[2]][2])
 
 IsShear(k)  == k[1] >= 4 \/ k[2] >= 4
 IsLong(k)   == ~IsShear(k) /\ k[1] = k[2]
